@@ -27,6 +27,7 @@ def base(fe, pad, fk):
 
 
 def check(rep, model, tier):
+    _doc_defaults(rep, model)
     rep.rule('FE-DEF', 'find_extrema == reference (sa/refspec/cyclepoints.py) for first_extrema in {peak, trough, None} x pad x filter options: counts of closed half-waves, '
                        'scanning loops, arg-extrema of the raw signal with the window start added back, un-padding, strict two-sided boundary on the original length, trimming')
     rep.rule('PROVENANCE', 'every argmax / argmin operand is a slice of the RAW signal (the parameter or its np.pad), never of the filtered signal; the crossings come from '
@@ -198,3 +199,8 @@ def final_mask(comp):
         elif rest or values[1] != 0:
             off = T.neg(T.lin(values[1], rest))
     return {'values': values, 'mask': mask, 'offset': off}
+
+
+def _doc_defaults(rep, model):
+    from . import common as _c
+    _c.doc_defaults(rep, model, ['find_extrema', 'find_flank_zerox'])
